@@ -89,6 +89,19 @@ def handleAddr (op : String) (j : Json) : R Json := do
       pure (Json.mkObj [("hrp", Json.str (String.ofList h)), ("data", ofBytes (d.map UInt8.ofNat)),
         ("spec", ofNat (match spec with | .bech32 => 1 | .bech32m => 2))])
     | none => pure (jErr "reject")
+  | "addr.consts" =>
+    -- constants of the model, compared by the harness with the live objects of /repo (T1)
+    let types : List (String × AddressType) := [("BYRON", .byron), ("KEY_KEY", .keyKey), ("SCRIPT_KEY", .scriptKey),
+      ("KEY_SCRIPT", .keyScript), ("SCRIPT_SCRIPT", .scriptScript), ("KEY_POINTER", .keyPointer),
+      ("SCRIPT_POINTER", .scriptPointer), ("KEY_NONE", .keyNone), ("SCRIPT_NONE", .scriptNone),
+      ("NONE_KEY", .noneKey), ("NONE_SCRIPT", .noneScript)]
+    pure (Json.mkObj [
+      ("charset", Json.str (String.ofList Bech32.charset)),
+      ("bech32m", ofNat Bech32.bech32mConst),
+      ("generator", ofList ofNat Bech32.generator),
+      ("types", Json.mkObj (types.map fun (n, t) => (n, ofNat t.value))),
+      ("networks", Json.mkObj [("TESTNET", ofNat Network.testnet.value), ("MAINNET", ofNat Network.mainnet.value)]),
+      ("hash_size", ofNat (if (mkVkh (List.replicate 28 0)).toBool && (mkSh (List.replicate 28 0)).toBool then 28 else 0))])
   | "bech32.polymod" =>
     pure (ofNat (Bech32.polymod ((← getBytes j "values").map UInt8.toNat)))
   | _ => throw s!"unknown op {op}"
